@@ -3,9 +3,12 @@ CONSTANTS
   Programs <- AllPrograms
   QuerySeqs <- QS3
   Permute = TRUE
+  CheckOnTableHit = FALSE
+  RepairFalseResult = FALSE
 VIEW view
-INVARIANT NoCycleInFamily
 INVARIANT NoDanglingMessages
+INVARIANT NoError
+INVARIANT NegCycleOnlyWhenCyclic
 INVARIANT StackEmpty
 INVARIANT TableSound
 INVARIANT ResultCorrect
